@@ -11,7 +11,7 @@ def pty_sessions(ctx):
     model IO/TermIO.v and the frame specification by Corr/C16Pty.v"""
     out = os.path.join(ctx["build"], "cases", "C16-pty" + ("-replay" if ctx.get("replay") else ""))
     os.makedirs(out, exist_ok=True)
-    for f in ("sessions.v", "sessions.json"):
+    for f in ("sessions.v", "sessions.json", "current_session.json"):
         try:
             os.remove(os.path.join(out, f))
         except OSError:
@@ -29,6 +29,11 @@ def pty_sessions(ctx):
     violations = []
     notes = [text.strip().split("\n")[0][:300]]
     meta_path = os.path.join(out, "sessions.json")
+    cur = os.path.join(out, "current_session.json")
+    if not os.path.exists(meta_path) and os.path.exists(cur):
+        # the process died (abort inside the crate) while this session ran: the session is the witness
+        return {"violations": [{"kind": "failing-input", "what": "process aborted while running this pty session (rc=%d): %s" % (rc, text[-300:]),
+                                "case": {"pty_session": json.load(open(cur))}}], "notes": notes}
     if not os.path.exists(meta_path):
         raise RuntimeError("pty16 tool produced nothing (rc=%d): %s" % (rc, text[-1500:]))
     meta = json.load(open(meta_path))
